@@ -1,6 +1,7 @@
 import RR.Proof.Codec
 import RR.Proof.Au
 import RR.Proof.AuBlock
+import RR.Proof.AuEnc
 import RR.Proof.Sigmf
 
 /-!
@@ -104,6 +105,31 @@ theorem c14_au_stream_roundtrip (bitrate : Nat) (hb : bitrate < 256 ^ 4) (q : Na
   rw [hdec] at e1
   cases e1
   exact ⟨_, e3⟩
+
+/-- **AuEncode as a block, every schedule** of read windows and output space (also one byte of room at a
+time, so that the header or a sample does not fit): the bytes written so far are the first `k` header bytes
+followed by two big-endian bytes per consumed sample, samples only after the complete header — a prefix of
+what `Au.encode` gives for the whole input, with no extra or missing byte. -/
+theorem c14_au_encode_block_any_chunking (bitrate : Nat) (q : Nat → Nat) (X : List Nat) (sched : List (Nat × Nat)) :
+    let r := Blk.drive1 (Au.encBlock bitrate q) X (Au.encBlock bitrate q).init 0 [] sched
+    (∃ k, k ≤ (Au.header bitrate).length ∧ (k < (Au.header bitrate).length → r.2.1 = 0) ∧ r.2.1 ≤ X.length ∧
+      r.2.2 = (Au.header bitrate).take k ++ Au.body q (X.take r.2.1)) ∧
+    ∃ rest, Au.encode bitrate q X = r.2.2 ++ rest := by
+  intro r
+  obtain ⟨k, h1, _, h3, h4, h5⟩ := Au.enc_drive bitrate q X sched _ 0 [] (Au.enc_init bitrate q X)
+  refine ⟨⟨k, h1, h3, h4, h5⟩, ?_⟩
+  show ∃ rest, Au.encode bitrate q X = r.2.2 ++ rest
+  rw [h5]
+  by_cases hk : k = (Au.header bitrate).length
+  · refine ⟨Au.body q (X.drop r.2.1), ?_⟩
+    rw [hk, List.take_length, List.append_assoc, ← Au.body_append, List.take_append_drop]
+    rfl
+  · have hc : r.2.1 = 0 := h3 (by omega)
+    refine ⟨(Au.header bitrate).drop k ++ Au.body q X, ?_⟩
+    rw [hc]
+    simp only [List.take_zero, Au.body, List.flatMap_nil, List.append_nil]
+    rw [← List.append_assoc, List.take_append_drop]
+    rfl
 
 /-- SigMF archives: the data range found does not depend on member order … -/
 theorem c14_sigmf_order (ms ms' : List Sigmf.Member) (h : ms.Perm ms') :
